@@ -203,6 +203,23 @@ def _mk(name: str) -> Program:
         else:
             f3 = cat_fn_scan_fwd_rev if place == "fn" else scan_fwd_rev
         return _prog(name, lambda x: f3(x), _spec(_XS), [[_XS]])
+    if kind.startswith("fn_in_") or kind == "inst_top_then_body":
+        from sim.fixtures import lib as _lib
+
+        if kind == "fn_in_fori":
+            g = lambda x: lax.fori_loop(0, 2, lambda i, v: _lib.fn_sin2(v) * 0.5, x)  # noqa: E731
+        elif kind == "fn_in_scan":
+            g = lambda x: lax.scan(lambda c, e: (_lib.fn_sin2(c) * 0.5 + e, c), jnp.zeros_like(x), jnp.stack([x, x * 2.0]))[0]  # noqa: E731
+        elif kind == "fn_in_cond":
+            g = lambda x: lax.cond(jnp.sum(x) > 0, lambda v: _lib.fn_sin2(v), lambda v: v * 3.0, x)  # noqa: E731
+        elif kind == "fn_in_while":
+            g = lambda x: lax.while_loop(lambda s: s[0] < 2, lambda s: (s[0] + 1, _lib.fn_sin2(s[1]) * 0.5), (0, x))[1]  # noqa: E731
+        else:
+            a_ = _lib._single("cat_blk_a", lambda: _lib.Block(3, 3, 1))
+            b_ = _lib._single("cat_blk_b", lambda: _lib.Block(3, 3, 2))
+            # one instance at top level, ANOTHER instance of the same class first used inside a loop body
+            g = lambda x: lax.fori_loop(0, 2, lambda i, v: b_(v[None, :])[0], a_(x[None, :])[0])  # noqa: E731
+        return _prog(name, lambda x: g(x), _spec(_X), [[_X], [-_X]])
     if kind == "switch2_shared":
         return _prog(name, lambda i, x: switch2_shared(i, x), _spec(_I[0], _X), [[i, _X] for i in _I[:2]])
     if kind == "switch3_shared":
